@@ -11,6 +11,32 @@ use serde_json::json;
 pub struct C17;
 
 pub const KNOWN_ID: &str = "memo-key-omits-recursion-flags";
+pub const KNOWN_ID_KW: &str = "memoised-keyword-directive-replay";
+
+/// the same text with every `begin_keywords "..." and `end_keywords blanked out (same length)
+fn neutralise_keyword_directives(t: &str) -> String {
+    let mut out = t.to_string();
+    for pat in ["`begin_keywords", "`end_keywords"] {
+        let mut from = 0;
+        while let Some(i) = out[from..].find(pat) {
+            let start = from + i;
+            let mut end = start + pat.len();
+            if pat == "`begin_keywords" {
+                // up to and including the closing quote of the version specifier
+                let rest = &out[end..];
+                if let Some(q1) = rest.find('"') {
+                    if let Some(q2) = rest[q1 + 1..].find('"') {
+                        end += q1 + 1 + q2 + 1;
+                    }
+                }
+            }
+            let blanks = " ".repeat(end - start);
+            out.replace_range(start..end, &blanks);
+            from = end;
+        }
+    }
+    out
+}
 const CAPS: &[usize] = &[1, 2, 3, 5, 8, 16, 64, 256, 4096, 0];
 const MAX_REF_STEPS: u64 = 6000;
 const FLAG_AWARE_BUDGET: u64 = 3_000_000;
@@ -328,8 +354,31 @@ impl Property for C17 {
                             }
                         }
                         (Some(_), Some(_)) => {
-                            v.detail = format!("{} [persists with a flag-aware memo key: not the known recursion-flag finding]", v.detail);
-                            rep.violations.push(v);
+                            // second discriminator: side effects of keyword directives replayed after an eviction.
+                            // Attributed only if (1) the diverging run re-executed a region push, or a pop that removed
+                            // an entry, for a directive that had already executed one, more often than the reference run,
+                            // and (2) the two capacities agree once the keyword directives are blanked out.
+                            let replay_div = b.kw_replayed_pushes + b.kw_replayed_effective_pops;
+                            let replay_ref = a.kw_replayed_pushes + a.kw_replayed_effective_pops;
+                            let neutral = neutralise_keyword_directives(&small);
+                            let mut attributed = false;
+                            if replay_div > replay_ref && neutral != small {
+                                let n1 = run_one(sc, &with_text(reference, &neutral), 400_000);
+                                let n2 = run_one(sc, &with_text(c, &neutral), 400_000);
+                                rep.execs += 2;
+                                if let (Ok((n1, _)), Ok((n2, _))) = (n1, n2) {
+                                    if let (Some(x), Some(y)) = (accept(&n1), accept(&n2)) {
+                                        attributed = x == y;
+                                    }
+                                }
+                            }
+                            if attributed {
+                                v.detail = format!("{} [persists with a flag-aware key; {} replayed keyword-region side effects in the diverging run vs {} in the reference, and the divergence vanishes when the keyword directives are blanked out: begin_keywords()/end_keywords() run inside memoised parsers (version_specifier, endkeywords_directive via white_space), sv-parser-parser/src/general/compiler_directives.rs]", v.detail, replay_div, replay_ref);
+                                rep.matched.push((KNOWN_ID_KW.to_string(), v));
+                            } else {
+                                v.detail = format!("{} [persists with a flag-aware memo key: not the known recursion-flag finding; replayed keyword-region side effects: {} vs {}]", v.detail, replay_div, replay_ref);
+                                rep.violations.push(v);
+                            }
                             rep.replay_scenario = Some(frozen);
                         }
                         _ => rep.probe("unattributed_discriminator_budget", 1),
